@@ -5,7 +5,7 @@ machinery; exit 2/3 is a machinery failure; DEGRADED lines are recorded (proof l
 Usage: tools/refac_eval.py [--props C01,C02] dir..."""
 import json, os, subprocess, sys, time
 V = os.path.dirname(os.path.dirname(os.path.abspath(__file__)))
-WT = "/tmp/wt_refac"
+WT = f"/tmp/wt_refac_{os.getpid()}"
 
 
 def sh(cmd, **kw):
